@@ -466,7 +466,9 @@ def square_wave(fs, offset, samples, depth, fm, duty_cycle, alpha=0):
     # Now, stride through the array
     while True:
     #for s in np.arange(fm_start, fm_start + samples, fm_samples):
-        s = int(np.round(fm_start))
+        # Round half up (np.round rounds half to even, which makes the result
+        # depend on the parity of offset when the period is a half-integer).
+        s = int(np.floor(fm_start + 0.5))
         if s < 0:
             n_remaining = duty_samples + s
             if n_remaining > 0:
